@@ -91,6 +91,20 @@ CLAIMS = {
              "(watchdog) and leave exactly the model's content, tags and predecessor relation.",
         note="Fixed in /repo while building this check: F1 F2 F3 F5 F15 (see known_findings.json).",
         ref="3 C09", technique=TECH + " (MCStore.tla invariants; StoreMon.tla OpResult / Live* after delete and gc)"),
+    "C10": dict(
+        text="OciCrash.tla models every OCI-layout operation as the sequence of its file-system steps (OciSteps.tla) with a "
+             "crash before every step and checks, exhaustively over small universes and histories, that a store reopened "
+             "from the disk alone opens, lists only existing blobs, shows the tag map of before or after the interrupted "
+             "operation and keeps the effects of completed ones. On the real code a driver binary runs scripted "
+             "histories; strace records the victim operation's system calls and then kills the process (SIGKILL injected "
+             "at syscall entry) before each of them in turn; after every kill the directory is inspected and reopened and "
+             "CrashMon.tla evaluates the same invariants, and compares the recorded system calls with the model's steps.",
+        note="Crash = process death; power loss (page cache, directory fsync) is not modelled. Crash points are the entries "
+             "of the file-system system calls the victim issues on its (locked) main thread; a kill before a read-only call "
+             "equals a kill before the next mutating one. Victims: Push (blob, manifest), Tag, Untag, Delete (cascades), "
+             "GC, Tag+SaveIndex with AutoSaveIndex off.",
+        ref="3 C10", technique="TLA+ crash model checked with TLC; strace-injected kills of the real process at every system "
+                              "call, recoveries judged by TLC (trace validation)"),
     "C19": dict(
         text="Pack.tla states the four packers as a decision table over (version, artifactType class, config class, "
              "config annotations, layers, subject, annotations, target); PackCases.tla model-checks the table and emits "
